@@ -470,6 +470,13 @@ def timezone(haystack_tz, version=LATEST_VER):
                 % haystack_tz)
     return pytz.timezone(tz_name)
 
+def _utcoffset_at(tz, dt):
+    """
+    The UTC offset of zone tz at the instant denoted by dt.
+    """
+    # (via UTC: astimezone() does nothing if dt.tzinfo is tz already)
+    return dt.astimezone(pytz.utc).astimezone(tz).utcoffset()
+
 def timezone_name(dt, version=LATEST_VER):
     """
     Determine an appropriate timezone for the given date/time object
@@ -481,7 +488,11 @@ def timezone_name(dt, version=LATEST_VER):
     # Easy case: pytz timezone.
     try:
         tz_name = dt.tzinfo.zone
-        return tz_rmap[tz_name]
+        haystack_name = tz_rmap[tz_name]
+        # A pytz zone attached without localize() carries an offset (LMT)
+        # that the zone does not have at that instant: do not name it then.
+        if _utcoffset_at(pytz.timezone(tz_name), dt) == dt.utcoffset():
+            return haystack_name
     except KeyError:
         # Not in timezone map
         pass
@@ -499,8 +510,10 @@ def timezone_name(dt, version=LATEST_VER):
         # UTC?
         return 'UTC'
 
+    # Compare with each zone's offset at that instant (asking for the offset
+    # of the naive local time fails in zones where it is ambiguous or skipped)
     for olson_name, haystack_name in list(tz_rmap.items()):
-        if pytz.timezone(olson_name).utcoffset(dt_notz) == offset:
+        if _utcoffset_at(pytz.timezone(olson_name), dt) == offset:
             return haystack_name
 
     raise ValueError('Unable to get timezone of %r' % dt)
